@@ -51,6 +51,10 @@ def run(ctx):
                 cfg["limit"] = 1          # stopped by the limit, labels far from a fixed point
             if i % 6 == 0:
                 cfg["K"] = min(6, cfg["K"] + 2)   # more clusters than regimes: empty final clusters are likely
+            if i % 7 == 5:
+                # a covariance floor that really zeroes entries: the labelling table and the final per-point pass must
+                # score with the SAME (filtered) matrices and log-determinants
+                cfg.update({"eps": [0.03, 0.08, 0.2][(i // 7) % 3], "lam": [0.0, 0.01, 0.05][(i // 7) % 3]})
             if i % 7 == 3:
                 # data riding on a large common offset (sensor counts, timestamps): the two evaluations of the
                 # log-density (labelling table / final per-point pass) must still agree
